@@ -21,7 +21,6 @@ ASSUMPTIONS = ['pending at the moment of the fault = the API call was made befor
 DECIDING_REQUIRED = ('fault_points_run', 'pending_requests_judged', 'producers_judged', 'on_close_checked',
                      'cuts_inside_fragment_runs')
 BUDGET_S = {'quick': 100, 'thorough': 2400}
-CASE_WALL_LIMIT = {'quick': 90, 'thorough': 400}
 
 N_SCENARIOS = {'quick': 6, 'thorough': 24}
 T_REF = 1.5
